@@ -250,3 +250,58 @@ package bchutil
 //@   ensures net == nil ==> err != nil && result0 == nil
 //@   ensures net != nil ==> err == nil && result0 != nil && fresh(result0) && result0.PrivKey == privKey && result0.CompressPubKey == compress && result0.netID == net.PrivateKeyID
 //@   modifies nothing
+
+// ---- CashAddr payload packing (C01 / C02)
+
+//@ func bchutil.convertBits
+//@   requires (fromBits == 8 && tobits == 5) || (fromBits == 5 && tobits == 8)
+//@   ensures freshornil(result0) && (err != nil ==> len(result0) == 0)
+//@   ensures pad ==> err == nil
+//@   ensures err == nil ==> forall k :: 0 <= k && k < len(result0) ==> int(result0[k]) < (tobits == 5 ? 32 : 256)
+//@   modifies nothing
+//@   loop 1 invariant len(uintArr) == $i && freshornil(uintArr)
+//@   loop 1 inline-unroll 70
+//@   loop 2 invariant bits < tobits && freshornil(ret) && len(uintArr) == len(data) && maxv == (u64(1) << tobits) - 1
+//@   loop 2 invariant forall k :: 0 <= k && k < len(ret) ==> ret[k] <= maxv
+//@   loop 2 inline-unroll 70
+//@   loop 3 invariant bits < tobits + fromBits && freshornil(ret) && maxv == (u64(1) << tobits) - 1
+//@   loop 3 invariant forall k :: 0 <= k && k < len(ret) ==> ret[k] <= maxv
+//@   loop 3 decreases int(bits)
+//@   loop 3 inline-unroll 3
+//@   loop 4 invariant len(dataArr) == $i && freshornil(dataArr) && maxv == (u64(1) << tobits) - 1
+//@   loop 4 invariant forall k :: 0 <= k && k < len(ret) ==> ret[k] <= maxv
+//@   loop 4 invariant forall k :: 0 <= k && k < $i ==> u64(dataArr[k]) <= maxv
+//@   loop 4 inline-unroll 110
+
+//@ func bchutil.packAddressData
+//@   ensures freshornil(result0) && (err != nil ==> len(result0) == 0)
+//@   ensures err == nil ==> forall k :: 0 <= k && k < len(result0) ==> result0[k] < 32
+//@   modifies nothing
+
+//@ lemmafunc bchutil.lemmaPackUnpack20
+//@   inlines bchutil.packAddressData, bchutil.convertBits
+//@   loop 1 unroll 34
+//@   loop 2 unroll 20
+
+//@ lemmafunc bchutil.lemmaPackUnpack32
+//@   inlines bchutil.packAddressData, bchutil.convertBits
+//@   loop 1 unroll 32
+
+//@ func bchutil.checkDecodeCashAddress
+//@   ensures err == nil ==> len(result) == 20 && freshornil(result)
+//@   ensures err == nil ==> (result[0 - 1] == 0 && t == 0) || (result[0 - 1] == 8 && t == 1)
+//@   modifies nothing
+
+//@ func bchutil.checkEncodeCashAddress
+//@   modifies nothing
+
+//@ func bchutil.encode
+//@   requires forall k :: 0 <= k && k < len(payload) ==> payload[k] < 32
+//@   ensures len(result) == len(payload) + 8
+//@   ensures forall k :: 0 <= k && k < len(payload) ==> result[k] == Charset[int(old(payload[k]))]
+//@   ensures forall j :: 0 <= j && j < 8 ==> result[len(payload) + j] == Charset[int(u8((u64(old(cashaddr.cksum(prefix, len(prefix), payload, len(payload)))) >> u64(5 * (7 - j))) & 31))]
+//@   modifies *payload
+//@   opaque cashaddr.step
+//@   assert after cat#1: len($ret) == len(payload) + 8 && (forall k :: 0 <= k && k < len(payload) ==> $ret[k] == old(payload[k])) && (forall j :: 0 <= j && j < 8 ==> $ret[len(payload) + j] == checksum[j])
+//@   loop 1 invariant len(ret) == $i && forall k :: 0 <= k && k < $i ==> ret[k] == Charset[int(combined[k])]
+//@   loop 1 invariant forall k :: 0 <= k && k < len(combined) ==> combined[k] < 32
